@@ -813,6 +813,28 @@ func newDynRandom(c *core.Ctx, kind string, total bool) *Dyn {
 		c.Begin(kind, "New", d.Elem, d.Config)
 		return d
 	}
+	if (c.IsProp("C11") || c.IsProp("C12")) && r.Chance(1, 10) {
+		// a defined string type as key / element, or `any` as element / value type
+		// (`any` only in C11: in a hostile document every element is a valid `any`,
+		// uncomparable slices and maps included, which no container state denotes)
+		if r.Bool() || !c.IsProp("C11") {
+			if isKV(kind) {
+				d = NewDyn(kind, SIDDom(r.Range(4, 14)), IntDom(r.Range(4, 10)), cfg)
+			} else {
+				d = NewDyn(kind, SIDDom(r.Range(4, 23)), IntDom(4), cfg)
+			}
+			c.Count("dyn:defined-string-type", 1)
+		} else {
+			if isKV(kind) {
+				d = NewDyn(kind, StrDom(r.Range(4, 14)), AnyDom(r.Range(4, 16)), cfg)
+			} else {
+				d = NewDyn(kind, AnyDom(r.Range(4, 16)), IntDom(4), cfg)
+			}
+			c.Count("dyn:interface-typed-elements", 1)
+		}
+		c.Begin(kind, "New", d.Elem, d.Config)
+		return d
+	}
 	if isKV(kind) && c.IsProp("C12") && r.Chance(1, 12) {
 		// keys that unmarshal themselves from text (see TK). Only where the
 		// statement is about what an input denotes: C11 is stated for string and
